@@ -383,6 +383,9 @@ func (s *Store) Put(key []byte, value []byte) error {
 	lk := s.keyLock(indexKey)
 	lk.Lock()
 	written, err := s.put(key, indexKey, value)
+	for err == errLocationSuperseded {
+		written, err = s.put(key, indexKey, value)
+	}
 	lk.Unlock()
 	if err != nil {
 		return err
@@ -460,8 +463,17 @@ func (s *Store) put(key, indexKey, value []byte) (bool, error) {
 		// If the key exists and the one stored is the one we are trying
 		// to put this is an update.
 		// if found && bytes.Compare(key, storedKey) == 0 {
-		if err = s.index.Update(indexKey, fileOffset); err != nil {
-			return false, err
+		if err = s.index.UpdateIfBlock(indexKey, prevOffset, fileOffset); err != nil {
+			if err != index.ErrLocationChanged {
+				return false, err
+			}
+			// GC moved the record after its location was read from the
+			// index, and is responsible for freeing the old location. Free
+			// the new record, which is not indexed, and start over.
+			if err = s.freelist.Put(fileOffset); err != nil {
+				return false, err
+			}
+			return false, errLocationSuperseded
 		}
 		// Add outdated data in primary storage to freelist
 		if err = s.freelist.Put(prevOffset); err != nil {
@@ -487,6 +499,9 @@ func (s *Store) Remove(key []byte) (bool, error) {
 	lk := s.keyLock(indexKey)
 	lk.Lock()
 	removed, err := s.remove(indexKey)
+	for err == errLocationSuperseded {
+		removed, err = s.remove(indexKey)
+	}
 	lk.Unlock()
 	if err != nil {
 		return false, err
@@ -543,19 +558,21 @@ func (s *Store) remove(indexKey []byte) (bool, error) {
 		return false, nil
 	}
 
-	removed, err := s.index.Remove(storedKey)
+	removed, err := s.index.RemoveIfBlock(storedKey, offset)
 	if err != nil {
 		return false, err
 	}
-	if removed {
-		// Mark slot in freelist
-		err = s.freelist.Put(offset)
-		if err != nil {
-			return false, err
-		}
+	if !removed {
+		// GC moved the record after its location was read from the index,
+		// and is responsible for freeing the old location. Start over.
+		return false, errLocationSuperseded
+	}
+	// Mark slot in freelist
+	if err = s.freelist.Put(offset); err != nil {
+		return false, err
 	}
 
-	return removed, nil
+	return true, nil
 }
 
 func (s *Store) SetFileCacheSize(size int) {
